@@ -334,9 +334,15 @@ func verifC16b() { // three registrations incl. a decorator, one scope
 // trailing variadic parameter.
 func (h *vHist) vAltFunc(f *vFunc, tag string) *vFunc {
 	g := &vFunc{id: f.id, kind: f.kind, retErr: f.retErr, errFirst: f.errFirst, export: f.export, fault: f.fault, callback: f.callback}
+	uni := -1
+	if h.p.altUniform && len(f.params) > 0 {
+		uni = verifNdInt(tag+".altall", 3)
+	}
 	for i, p := range f.params {
 		q := *p
-		if p.name == "" && !p.optional && p.group == "" {
+		if uni >= 0 {
+			q.form = uni
+		} else if p.name == "" && !p.optional && p.group == "" {
 			q.form = verifNdInt(tag+".p"+vItoa(i)+".alt", 3)
 		} else {
 			q.form = 1 + verifNdInt(tag+".p"+vItoa(i)+".alt", 2)
